@@ -255,6 +255,9 @@ def witness_stage(ctx: Ctx, fixes: dict):
     two_linkers(ctx, fixes)
     # (d) 7.16 estimate_u unseeded twice
     estimate_u_twice(ctx)
+    # a NEW DatabaseAPI on a database that still holds another API's tables (persistent database reopened
+    # after the input rows changed): the uid in the hash must keep the old tables from being found
+    new_api_same_database(ctx)
     # bare input change (not a finding: the property requires invalidate_cache) - model verdict only
     r = run_history(ctx, "duckdb", [("predict",), ("chg_bare",), ("predict",)], fixes, avoid_findings=False)
     r["guard"] = False
@@ -281,7 +284,7 @@ def two_linkers(ctx: Ctx, fixes: dict):
     # model: SecondLinker keeps cache and database, switches inputs
     term = (X.HEADER + "\nEval vm_compute in (let s0 := " + X.coq_init("inp", 0, X.TF_COLS, 0, fixes) + " in "
             'let s0 := set_db K s0 (aset K keqb (st_db K s0) (PL K (LPlain "inp_b")) '
-            '{| e_prov K := PInput "inp_b" 2; e_origin K := User |}) in '
+            '{| e_prov := PInput "inp_b" 2; e_origin := User |}) in '
             'let ops := [Predict; SecondLinker [LPlain "inp_b"] ["first_name"; "surname"] 0] in '
             "let s := run K keqb hash s0 ops in "
             "(hist_ok K keqb hash s0 ops, prov_eqb (predict_prov s) (predict_prov (fresh_of K keqb s 777 888)))).\n")
@@ -297,7 +300,34 @@ def two_linkers(ctx: Ctx, fixes: dict):
                       {"case": ["Linker A(inp): predict", "Linker B(inp_b, same db_api): predict"], "implementation": diff,
                        "specification": "B.predict() equals a fresh linker over inp_b"},
                       {"scenario": "two_linkers_one_db_api"})
-    ctx.expect_known("KF-C07-two-linkers-one-api", diff is not None, "named cache entries are no longer shared")
+    ctx.expect_known("KF-C07-two-linkers-one-db-api", diff is not None, "named cache entries are no longer shared")
+
+
+def new_api_same_database(ctx: Ctx):
+    for backend in ("duckdb", "sqlite"):
+        wa = X.World(backend, version=0)
+        wa.apply(("predict",))
+        wa.apply(("cluster", 0))
+        wa.write_input(1)
+        if backend == "duckdb":
+            api2 = su.duckdb_api(wa.con)
+        else:
+            from splink.internals.sqlite.database_api import SQLiteAPI
+            api2 = SQLiteAPI(wa.con)
+        wb = X.World(backend, version=1, api=api2, create_input=False)
+        a = wb.predict_rows()
+        f = X.World(backend, version=1)
+        b = f.predict_rows()
+        d = X.rows_diff(a, b)
+        f.close()
+        wa.close()
+        ctx.count_case(("new_api_same_database", backend), True, {"scenario": "new_api_same_database", "backend": backend})
+        ctx.obligation(f"new DatabaseAPI on a database holding another API's tables sees the current rows ({backend})", d is None)
+        if d is not None:
+            ctx.violation("a new DatabaseAPI on the same database returns tables computed by a previous DatabaseAPI from old rows",
+                          {"case": ["API 1: predict, cluster", "input rows change", "API 2 (same connection): predict"],
+                           "backend": backend, "implementation": d, "specification": "equal to a fresh linker over the current rows"},
+                          {"scenario": "new_api_same_database"})
 
 
 def estimate_u_twice(ctx: Ctx):
@@ -395,6 +425,8 @@ def realtime_stage(ctx: Ctx, fixes: dict):
     terms, metas = [], []
     for backend in ("duckdb", "sqlite"):
         for q in range(nseq if backend == "duckdb" else max(2, nseq // 3)):
+            import splink.internals.realtime as R
+            R._sql_cache = R.SQLCache()      # the SQL cache is module-global: every sequence starts from an empty one
             api = su.make_api(backend)
             objs = [rt_settings(0), rt_settings(1)]
             dicts = [rt_settings(0).create_settings_dict(api.sql_dialect.sql_dialect_str)]
@@ -454,6 +486,8 @@ def realtime_stage(ctx: Ctx, fixes: dict):
                       {"case": metas[i][1], "backend": metas[i][0], "implementation": metas[i][2],
                        "specification": "rt_run of Model/Cache.v"}, {"model_mismatch": True, "scenario": "realtime_cache"})
     # witness (c) DESIGN 7.8
+    import splink.internals.realtime as R
+    R._sql_cache = R.SQLCache()
     api = su.duckdb_api()
     s = rt_settings(0)
     compare_records(recs[0], recs[1], s, api, use_sql_from_cache=True, include_found_by_blocking_rules=False)
